@@ -425,7 +425,7 @@ func runC11(args []string) int {
 	cfg.maxRecords = 5
 	var pool []*vfile
 	nPool := sizes(o.tier, o.boost, 22, 4000)
-	for len(pool) < nPool {
+	for tries := 0; len(pool) < nPool && tries < 60*nPool; tries++ {
 		cfg.maxRecords = 2 + rg.intn(9)
 		s := genStream(rg, &cfg, st)
 		data := s.bytes()
@@ -476,6 +476,10 @@ func runC11(args []string) int {
 	}
 	r.Extra["generated_valid_files"] = len(pool)
 	r.Extra["corpus_valid_frames"] = len(corpus)
+	if len(pool) == 0 {
+		r.specFail("valid_rejected", "Decode accepts none of the generated valid files (one read, no cut): the streams of this check cannot be built", nil)
+		return r.finish()
+	}
 	streams := 0
 	offsets := 0
 	run := func(files ...*vfile) bool {
